@@ -108,7 +108,7 @@ From Minidyn Require Import Model.Client Proofs.ClientInv Proofs.ClientIndexInv 
 
 Theorem C04_pagination_complete_in_every_reachable_state_base :
   forall lm lu sdk ops cn tn c t,
-    run_env EK (UK lu) lm lu sdk [] ops ->
+    run_env (UK lu) lm lu sdk [] ops ->
     lookup cn (fst (run lm lu sdk [] ops)) = Some c -> lookup tn (c_tables c) = Some t ->
     forall q ev,
     q_index q = None -> q_cond q = None ->
@@ -120,9 +120,8 @@ Proof. exact pagination_reachable_base. Qed.
 
 Theorem C04_pagination_complete_in_every_reachable_state_index :
   forall lm lu sdk ops cn tn c t,
-    run_env EK (UK lu) lm lu sdk [] ops ->
+    run_env (UK lu) lm lu sdk [] ops ->
     lookup cn (fst (run lm lu sdk [] ops)) = Some c -> lookup tn (c_tables c) = Some t ->
-    run_env EX UAny lm lu sdk [] ops ->
     forall q ev n ix,
     q_index q = Some n -> lookup n (t_indexes t) = Some ix -> q_cond q = None ->
     (forall e, In e (ies q ix) -> match_key lm (ctx_of c) t q (get_item t (snd e)) = Ok (ev (snd e))) ->
